@@ -15,7 +15,7 @@ from yaql import legacy
 from yaql.language import factory as F
 
 OT = F.OperatorType
-SKIP = {'.', '?.', '[]', '{}', '=>', '->', 'in', '=~', '!~'}
+SKIP = {'.', '?.', '[]', '{}', '=>', 'in', '=~', '!~'}
 
 
 def table_model(operators):
@@ -123,9 +123,22 @@ def tables():
     yield 'tightest+loosest', f, ['~~', '<-']
 
 
+def more_tables():
+    f = yaql.YaqlFactory(keyword_operator=None)
+    f.insert_operator('->', True, '|>', OT.BINARY_LEFT_ASSOCIATIVE, True)
+    yield 'no-keyword+loosest-left', f, ['|>', '->']
+    f = legacy.YaqlFactory()
+    f.insert_operator('->', True, '|>', OT.BINARY_LEFT_ASSOCIATIVE, True)
+    yield 'legacy+loosest-left', f, ['|>', '->', '=>']
+    f = yaql.YaqlFactory()
+    f.insert_operator('->', True, '~>', OT.BINARY_RIGHT_ASSOCIATIVE, True)
+    f.insert_operator('.', True, '::', OT.BINARY_LEFT_ASSOCIATIVE, False)
+    yield 'loosest-right+tightest-join', f, ['~>', '->', '::']
+
+
 def main():
     total = 0
-    for tname, fac, must_use in tables():
+    for tname, fac, must_use in itertools.chain(tables(), more_tables()):
         try:
             engine = fac.create()
         except Exception as e:      # noqa
